@@ -208,17 +208,52 @@ def c14_witness(pid, fails, repo):
     return out
 
 
+def c14_extra(pid, tier, seed, runs):
+    """injection half: BOUNDED replay (adversarial text in every position where schema text flows into the output)"""
+    from .units import j_replay
+    from .core import Failure, REPO
+    res = j_replay.search(REPO)
+    out = {'obligations': [f'C14-injection:bounded:injection#{p}' for p in res['positions']], 'failures': [], 'trusted_base': [
+               'independent Rust lexer vp/rustlex.py (classification of the emitted text into literal / comment / code tokens)'],
+           'back_end': ' + bounded replay of the real generator with an independent lexer for the injection half',
+           'coverage': {'bounded_standin': {
+               'label': 'BOUNDED (not counted as proved)', 'what': 'adversarial values in every position where schema text reaches the output; the emitted file '
+               'must lex as Rust, the value may appear only inside string-literal or comment tokens, a literal must evaluate to the original text, and the token '
+               'structure must equal that of a harmless value', 'positions': res['positions'], 'payloads': res['payloads'], 'cases': res['cases'],
+               'rejected_by_generator_with_an_error': res['rejected_by_generator'], 'bound': f"{len(res['positions'])} positions x {len(res['payloads'])} payload shapes, one at a time"}}}
+    for a in res['anomalies']:
+        f = Failure('C14-injection', f"bounded:injection#{a['position']}", f"value {a['value']!r} in position {a['position']}: " + '; '.join(a['problems'][:2]),
+                    [{'file': 'schema', 'line': 0, 'text': f"{a['position']}:{a['payload']}", 'what': 'input'}], a.get('schema', ''), props=['C14'])
+        f.witness = a
+        out['failures'].append(f)
+    if res.get('error'):
+        class _I:
+            unit = 'C14-injection'; status = 'inconclusive'; reason = 'injection harness did not run: ' + str(res['error'])[-300:]
+        out['inconclusive'] = _I()
+    return out
+
+
+def c14_witness_all(pid, fails, repo):
+    w = getattr(fails[0], 'witness', None)
+    if w:
+        return {'found': True, 'input': {k: w[k] for k in ('position', 'payload', 'value', 'problems')}, 'schema': w.get('schema', '')}
+    return c14_witness(pid, fails, repo)
+
+
 PROPS['C14'] = {
-    'units': [UnitK], 'level': 'proof', 'design_ref': 'DESIGN.md 4.14', 'witness': c14_witness,
-    'scope': 'keyword half only: field.rs::rename_keywords and as_field_name, for ALL strings, against the edition-2024 strict and '
-             'reserved keyword lists (weak keywords are legal identifiers and may stay)',
+    'units': [UnitK], 'level': 'proof', 'design_ref': 'DESIGN.md 4.14', 'witness': c14_witness_all, 'extra': c14_extra,
+    'scope': 'keyword half (proof): field.rs::rename_keywords and as_field_name, for ALL strings, against the edition-2024 strict and '
+             'reserved keyword lists (weak keywords are legal identifiers and may stay); injection half (bounded replay): names, enumeration and facet '
+             'values, documentation, namespace URIs, addresses, soapAction, operation / part / message / service names',
     'level_text': 'Deductive proof (Verus/Z3) over the real `match` on string literals: a non-keyword is returned unchanged; a strict or '
                   'reserved keyword is respelled to something that is not a keyword, and the raw form r#k is used only for keywords that may '
                   'be raw (not self/Self/crate/super); as_field_name never yields a keyword. Exhaustive over the keyword set and total over all other strings.',
     'level_note': 'Trusted: &str extensionality axiom (equal character sequences are equal strings) and reveal_strlit of the literals; the '
-                  'Inflector stand-in (snake case is an uninterpreted total function). NOT covered: the injection half of C14 (schema text '
-                  'interpolated into string literals / comments / attributes goes through format!, whose output is opaque to Verus) and type, '
-                  'module, operation and envelope names, which do not go through rename_keywords.',
+                  'Inflector stand-in (snake case is an uninterpreted total function). The INJECTION half (schema text interpolated into string '
+                  'literals / comments / attributes / code through format!, whose output is opaque to Verus) is NOT proved: it gets a BOUNDED replay '
+                  '(labelled bounded in the evidence, never counted as proved): 16 positions x 8 adversarial payload shapes through the real generator, '
+                  'the output classified by an independent lexer. Type, module, operation and envelope names do not go through rename_keywords and '
+                  'are covered by that replay only.',
     'assumptions': ['keyword lists in contracts/keywords.json transcribe the Rust reference (edition 2024)'],
 }
 
